@@ -111,12 +111,23 @@ def ex_fibdemux(ch, cfg, res):
     ends_kind = ch.choose(3, lambda c: "ends=%s" % ["None", "{1: end}", "{0: end, 2: end}"][c], free=True)
     dflt = ch.choose(2, lambda c: "default %s" % ("present" if c else "absent"), free=True)
     flow = ch.choose(4, lambda c: "flow %d" % c, free=True)
+    reps = [1, 70][ch.choose(2, lambda c: "the packet is preceded by %d packets of an unknown flow" % [0, 69][c], free=True)]
     log = []
     outs = [[Rec("o%d" % i, log) for i in range(3)], None, []][outs_kind]
     ends = [None, {1: Rec("end1", log)}, {0: Rec("end0", log), 2: Rec("end2", log)}][ends_kind]
     d = FIBDemux(outs=outs, ends=ends, fib=dict(fib), default_out=Rec("default", log) if dflt else None)
     p = Packet(0, 1, 0, flow_id=flow)
     tag = "FIBDemux(fib=%s,outs=%s)" % ("{}" if not fib else "set", ["list", "None", "[]"][outs_kind])
+    if reps > 1:
+        # a long-lived demux: earlier traffic for a flow nobody knows (goes to the default output or nowhere)
+        warm = [Packet(0, 1, 1000 + i, flow_id=9) for i in range(reps - 1)]
+        if not guarded(res, tag, lambda: [d.put(w) for w in warm]):
+            return ("raise-warm",)
+        wgot = [n for n, q in log]
+        if wgot != (["default"] * (reps - 1) if dflt else []):
+            res.bad("C18.fibdemux", tag + ":unknown-flow-not-sent-to-the-default-output", "%d packets of an unknown flow: %d reached the default output" % (reps - 1, wgot.count("default")))
+            return ("warm",)
+        del log[:]
     if not guarded(res, tag, lambda: d.put(p)):
         return ("raise", tuple(entries), outs_kind, ends_kind, dflt, flow)
     nout = 3 if outs_kind == 0 else 0
@@ -181,9 +192,23 @@ def ex_hub(ch, cfg, res):
     n = 2 + ch.choose(3, lambda c: "%d endpoints" % (c + 2), free=True)
     style = ch.choose(4, lambda c: "constructed " + ["Hub(env, eps)", "Hub(env, eps, [None]*n)", "Hub(env, eps, ports)", "Hub(env) + add_endpoint"][c], free=True)
     sender = ch.choose(n, lambda c: "sender ep%d" % c, free=True)
+    idkind = ch.choose(2, lambda c: "endpoint ids are %s" % ["strings", "ints (endpoints are Device subclasses)"][c], free=True)
     env = Environment()
     log = []
-    eps = [Rec("ep%d" % i, log) for i in range(n)]
+    if idkind == 0:
+        eps = [Rec("ep%d" % i, log) for i in range(n)]
+    else:
+        from onl.device import Device
+
+        class DevEp(Device):
+            def __init__(self, i):
+                self.element_id = 100 + i      # through Device's own property
+                self.name = "ep%d" % i
+                self.out = None
+
+            def put(self, pkt):
+                log.append((self.name, pkt))
+        eps = [DevEp(i) for i in range(n)]
     plog = []
 
     class PortDev:
@@ -211,7 +236,7 @@ def ex_hub(ch, cfg, res):
             holder["h"] = h
     if not guarded(res, tag, mk):
         return ("raise-ctor", n, style)
-    p = Packet(0, 1, 0, src="ep%d" % sender)
+    p = Packet(0, 1, 0, src=("ep%d" % sender) if idkind == 0 else 100 + sender)
     if not guarded(res, tag, lambda: holder["h"].put(p)):
         return ("raise-put", n, style, sender)
     res.ev("C18.hub")
@@ -257,7 +282,11 @@ def ex_split(ch, cfg, res):
         for i in range(width):
             if conn[i]:
                 sp.outs[i] = Rewriter("o%d" % i, log)
-    p = Packet(3, 5, 9, src="s", dst="d", flow_id=1, payload="x")
+    class TaggedPacket(Packet):
+        """applications subclass Packet and attach their own header fields"""
+    p = TaggedPacket(3, 5, 9, src="s", dst="d", flow_id=1, payload="x")
+    p.ttl = 17
+    p.ack = 4
     if not guarded(res, cls, lambda: sp.put(p)):
         return ("raise", n, tuple(conn))
     res.ev("C18.split")
@@ -283,8 +312,8 @@ def ex_split(ch, cfg, res):
             res.bad("C18.split", cls + ":first-output-is-not-the-original", "")
         elif nm != "o0" and q is p:
             res.bad("C18.split", cls + ":copy-output-carries-the-original", nm)
-        elif fields(q) != fields(p):
-            res.bad("C18.split", cls + ":copy-differs-from-original", nm)
+        elif fields(q) != fields(p) or getattr(q, "ttl", None) != 17 or q.ack != 4 or type(q) is not type(p):
+            res.bad("C18.split", cls + ":copy-differs-from-original", "%s: type %s ttl %r ack %r" % (nm, type(q).__name__, getattr(q, "ttl", None), q.ack))
     if len(set(id(q) for q in objs.values())) != len(objs):
         res.bad("C18.split", cls + ":outputs-share-one-object", "")
     # header fields of one copy can be changed independently
